@@ -131,6 +131,22 @@ func c20RelativeDirProbe(t fataler, st *kvh.Stats) {
 			if f := write(300, 420, "after"); f != nil {
 				return f
 			}
+			if round%2 == 0 {
+				// a merge, and the restart that adopts it, under the same relative name
+				if err := db.Merge(); err != nil {
+					return &kvh.Fail{Sig: "merge-error", Msg: what + ": " + err.Error()}
+				}
+				if err := db.Close(); err != nil {
+					return &kvh.Fail{Sig: "close-error", Msg: what + ": " + err.Error()}
+				}
+				if db, err = kv.Open(opt.KV(sp.dir)); err != nil {
+					closed = true
+					return &kvh.Fail{Sig: "open-error", Msg: what + ": the Open that adopts the merge: " + err.Error()}
+				}
+				if f := write(420, 470, "merged"); f != nil {
+					return f
+				}
+			}
 			if err := db.Close(); err != nil {
 				return &kvh.Fail{Sig: "close-error", Msg: what + ": " + err.Error()}
 			}
